@@ -106,6 +106,17 @@ def _dom_frames(tier, seed):
                 vx.astype(ra.dtype) if ra.dtype.kind == "f" else vx, vy.copy(), vz.copy())
         add("coords.shiftlon wrap " + tag, lambda a: co.shiftlon(a, wrap=True), ra)
         add("coords.atbound " + tag, None, ra)      # documented in-place helper: not swept
+    # tables whose columns differ in byte order (and strided views of them) through the byte-order converters
+    mixed = np.zeros(6, dtype=[("id", "<i4"), ("flux", ">f8"), ("tag", "S3"), ("v", ">i2", (2,))])
+    mixed["id"] = np.arange(6) + 1
+    mixed["flux"] = np.arange(6) * 1.5 - 2
+    mixed["tag"] = b"ab"
+    mixed["v"] = np.arange(12).reshape(6, 2)
+    for ttag, tbl in (("mixed", mixed), ("mixed strided", mixed[::2])):
+        for conv in ("to_native", "to_big_endian", "to_little_endian", "byteswap"):
+            for keep in (False, True):
+                add("numpy_util.%s %s inplace=False keep_dtype=%s" % (conv, ttag, keep),
+                    (lambda a, conv=conv, keep=keep: getattr(nu, conv)(a, inplace=False, keep_dtype=keep)), tbl)
     calls = [c for c in calls if c[1] is not None]
     # pre-computed ids (documented usage of bincount): the id array is an argument too
     ids0 = h.lookup_id(ra0, dec0)
@@ -142,7 +153,12 @@ def _dom_frames(tier, seed):
         add("numpy_util.rem_dup " + tag, lambda a, b: nu.rem_dup(a, b), x, wts)
         for conv in ("to_native", "to_big_endian", "to_little_endian", "byteswap"):
             add("numpy_util.%s inplace=False %s" % (conv, tag), (lambda a, conv=conv: getattr(nu, conv)(a, inplace=False)), x)
-            add("numpy_util.%s keep_dtype %s" % (conv, tag), (lambda a, conv=conv: getattr(nu, conv)(a, inplace=False, keep_dtype=True)), x)
+            add("numpy_util.%s inplace=False keep_dtype=True %s" % (conv, tag),
+                (lambda a, conv=conv: getattr(nu, conv)(a, inplace=False, keep_dtype=True)), x)
+        wz = np.array([1.0, 0.0, 0.5, 0.0, 3.0])
+        add("stat.wmom zero weights " + tag, lambda a, b: st.wmom(a, b, calcerr=True, sdev=True), x, wz)
+        add("stat.wmedian zero weights " + tag, lambda a, b: st.wmedian(a, b), x, wz)
+        add("stat.sigma_clip zero weights " + tag, lambda a, b: st.sigma_clip(a, weights=b, nsig=2.0, silent=True, extra={}), x, wz)
     cov = np.array([[2.0, 0.3], [0.3, 1.0]])
     add("stat.cov2cor", lambda a: st.cov2cor(a), cov)
     add("stat.cov2cor F-order", lambda a: st.cov2cor(a), np.asfortranarray(cov))
